@@ -76,6 +76,17 @@ class Invalid(Exception):
     pass
 
 
+def untyped(lit):
+    k = lit["k"]
+    if k == "null":
+        return None
+    if k == "list":
+        return [untyped(v) for v in lit["vs"]]
+    if k == "obj":
+        return dict(sorted((f["name"], untyped(f["value"])) for f in lit["fs"]))
+    return lit["v"]
+
+
 def ref_coerce(lit, ty, D, depth=0):
     """The spec's coercion of a constant literal to `ty` over the declared content `D`
     (result in `canon_schema.canon_value` form). Raises Invalid (also for cyclic default dependencies)."""
@@ -123,10 +134,9 @@ def ref_coerce(lit, ty, D, depth=0):
     if td is None:
         raise Invalid("unknown type " + name)
     if td["kind"] == "scalar":
-        # `default_scalar`: the literal's raw value
-        if k not in ("int", "float", "str", "bool"):
-            raise Invalid("scalar literal")
-        return lit["v"]
+        # `default_scalar`: the transparent conversion of the literal (fix C11-1): raw value of scalar literals (source
+        # text for numbers), name of enum literals, lists / dicts for list / object literals
+        return untyped(lit)
     if td["kind"] == "enum":
         if k != "enum" or lit["v"] not in [v["name"] for v in td["values"]]:
             raise Invalid("enum")
@@ -379,6 +389,10 @@ ID_LOOKALIKES = ["1\u0662\u0663", "4\uff12", "\u0663", "007", "+5", "-0", "-012"
                  "123456789012345678901234567890", "-", "", "\u0967\u0968", "42", "-7", "0"]
 
 
+CUSTOM_SCALAR_DEFAULTS = ['{a: 1, b: [true, "x", null, FOO], c: {}}', "[]", '[1, "two", [3.5]]', "FOO", '"plain"', "true", "12", "1.5",
+                          "{nested: {k: [1]}}", "{}", "null", '"007"', '"42.42"']
+
+
 def decorate(rng, D, rich=True):
     """In-place variations of the declared content: root names, subscription, richer descriptions."""
     D = copy.deepcopy(D)
@@ -429,6 +443,11 @@ def decorate(rng, D, rich=True):
                     x["default"] = json.dumps(rng.choice(ID_LOOKALIKES), ensure_ascii=False)
             if x.get("desc") is not None and rng.random() < 0.15:
                 x["desc"] = rng.choice(EXOTIC_DESCS)
+            if "type" in x and "default" in x and x["type"][0] == "named" and rng.random() < 0.5:
+                td = gs.desc_type(D, x["type"][1])
+                if td is not None and td["kind"] == "scalar":
+                    # JSON-like defaults of custom scalars: every kind of literal (finding C11/1)
+                    x["default"] = rng.choice(CUSTOM_SCALAR_DEFAULTS)
     return D
 
 
@@ -1000,6 +1019,9 @@ def _inject(rng, items, label):
         c = [a for t in types if t["kind"] in ("object", "interface") for f in t["fields"] for a in f["args"]]
         c += [f for t in types if t["kind"] == "input" for f in t["input_fields"]]
         c = [a for a in c if a["type"]["k"] == "named" or (a["type"]["k"] == "nonNull" and a["type"]["t"]["k"] == "named")]
+        # a custom scalar takes every kind of literal (fix C11-1): not a defect there
+        custom = {t["name"] for t in types if t["kind"] == "scalar"}
+        c = [a for a in c if (a["type"]["n"] if a["type"]["k"] == "named" else a["type"]["t"]["n"]) not in custom]
         if not c:
             return None
         a = rng.choice(c)
